@@ -247,6 +247,20 @@ func Clear[D ~[]T, T any](s D, site string) {
 	}
 }
 
+// Appended records what res = append(old, ...) did: when the capacity sufficed the new elements
+// were written into the (possibly shared) backing array behind the old length, otherwise the
+// old elements were read.
+func Appended[D ~[]T, T any](site string, old D, res D) D {
+	if RaceOn && len(res) > len(old) {
+		if cap(old) >= len(res) {
+			WS(res[len(old):], site)
+		} else {
+			RS(old, site)
+		}
+	}
+	return res
+}
+
 // Append is the builtin append: when the capacity suffices the new elements are written into
 // the shared backing array behind the old length, otherwise the old elements are read.
 func Append[D ~[]T, T any](site string, s D, e ...T) D {
